@@ -74,6 +74,14 @@ class NpObject:
         return sp.sqrt(x)
 
     @staticmethod
+    def abs(x):
+        if isinstance(x, np.ndarray):
+            return np.vectorize(sp.Abs, otypes=[object])(x)
+        return sp.Abs(x)
+
+    absolute = abs
+
+    @staticmethod
     def einsum(pattern, *ops):
         pattern = pattern.replace(' ', '')
         ins, out = pattern.split('->')
